@@ -107,11 +107,17 @@ impl Pattern {
     fn has_greedy_all(hir: &Hir) -> bool {
         match hir.kind() {
             HirKind::Repetition(repetition) => {
-                let is_dot = DOT_HIRS.contains(&repetition.sub);
+                // Look through capture groups: `(.)*` repeats a dot just like `.*`
+                let mut sub = &*repetition.sub;
+                while let HirKind::Capture(capture) = sub.kind() {
+                    sub = &capture.sub;
+                }
+                let is_dot = DOT_HIRS.contains(sub);
                 let is_unbounded = repetition.max.is_none();
                 let is_greedy = repetition.greedy;
 
-                is_dot && is_unbounded && is_greedy
+                // The repeated expression may itself contain a greedy dot repetition: `a(.*b)?`
+                (is_dot && is_unbounded && is_greedy) || Self::has_greedy_all(&repetition.sub)
             }
             HirKind::Empty => false,
             HirKind::Literal(_literal) => false,
